@@ -6,8 +6,8 @@ From TV Require Import C01.Model C01.Proofs1 C01.Proofs4 C01.Proofs6 C01.Example
 Local Open Scope string_scope.
 Local Open Scope list_scope.
 
-Definition c16 : cfg := {| max_header := 100; max_body := 16; body_override := None; chunk_pred := 3 |}.
-Definition c64 : cfg := {| max_header := 1000; max_body := 64; body_override := Some 200%N; chunk_pred := 3 |}.
+Definition c16 : cfg := {| max_header := 100; max_body := 16; body_override := None; chunk_pred := 3; no_keep_alive := false |}.
+Definition c64 : cfg := {| max_header := 1000; max_body := 64; body_override := Some 200%N; chunk_pred := 3; no_keep_alive := false |}.
 Definition ex_stream : bytes :=
   lines ["POST / HTTP/1.1"; "Host: a"; "Content-Length: 10"; ""] ++ s2b "0123456789" ++
   lines ["POST / HTTP/1.1"; "Host: a"; "Transfer-Encoding: chunked"; ""] ++
@@ -18,7 +18,7 @@ Example ex_within_limits :
   strict_reader c64 ex_stream = strict_reader c16 ex_stream.
 Proof.
   assert (L : limits_le c16 c64).
-  { unfold limits_le. split; [apply Nat.leb_le; reflexivity|]. split; [apply N.leb_le; reflexivity|reflexivity]. }
+  { unfold limits_le. split; [apply Nat.leb_le; reflexivity|]. split; [apply N.leb_le; reflexivity|split; reflexivity]. }
   assert (N : no_refusal (strict_reader c16 ex_stream) = true) by (vm_compute; reflexivity).
   split; [exact L|]. split; [exact N|]. apply within_limits_unaffected; assumption.
 Qed.
@@ -45,7 +45,7 @@ Qed.
 Example ex_header_boundary :
   let b := lines ["GET / HTTP/1.1"; "Host: a"; ""] in
   find_term b = Some 27%nat /\
-  (exists h, strict_reader {| max_header := 27; max_body := 16; body_override := None; chunk_pred := 3 |} b
+  (exists h, strict_reader {| max_header := 27; max_body := 16; body_override := None; chunk_pred := 3; no_keep_alive := false |} b
              = [EvReq (s2b "GET") (s2b "/") (s2b "HTTP/1.1") h; EvFin; EvEof]) /\
-  strict_reader {| max_header := 26; max_body := 16; body_override := None; chunk_pred := 3 |} b = [EvClosed].
+  strict_reader {| max_header := 26; max_body := 16; body_override := None; chunk_pred := 3; no_keep_alive := false |} b = [EvClosed].
 Proof. cbv zeta. split; [vm_compute; reflexivity|]. split; [eexists|]; vm_compute; reflexivity. Qed.
